@@ -37,14 +37,32 @@ def model_int(s, base=10):
     return v
 
 
+_real_chr = chr
+
+
+def model_chr(v):
+    """builtin chr() with its CPython error contract spelled out for the engine: values that
+    do not fit a C int raise OverflowError, other values outside range(0x110000) raise
+    ValueError (validated against the builtin in validate())"""
+    if v > 0x7FFFFFFF or v < -0x80000000:
+        raise OverflowError('Python int too large to convert to C int')
+    if v < 0 or v > 0x10FFFF:
+        raise ValueError('chr() arg not in range(0x110000)')
+    return _real_chr(v)
+
+
 class IntModel:
     def __enter__(self):
         self.had = 'int' in gm.__dict__
+        self.had_chr = 'chr' in gm.__dict__
         gm.int = model_int
+        gm.chr = model_chr
 
     def __exit__(self, *a):
         if not self.had:
             del gm.int
+        if not self.had_chr:
+            del gm.chr
         return False
 
 
@@ -450,6 +468,16 @@ def validate(seed, tier):
         if model_int(s, 16) != int(s, 16):
             raise RuntimeError(f'translator validation: model_int({s!r}) != int')
         n += 1
+    for val in (-2 ** 31 - 1, -2 ** 31, -1, 0, 65, 0x10FFFF, 0x110000, 2 ** 31 - 1, 2 ** 31,
+                0xFFFFFFFF, 2 ** 64):
+        def outcome(fn):
+            try:
+                return fn(val)
+            except (ValueError, OverflowError) as e:
+                return type(e).__name__
+        if outcome(model_chr) != outcome(chr):
+            raise RuntimeError(f'translator validation: model_chr({val}) != chr')
+        n += 1
     # the real codecs: entries written through every supported compression come back equal
     import os
     import tempfile
@@ -487,4 +515,5 @@ ASSUMPTIONS = ['Python\'s own str(int)/int(str) and strftime/strptime round-trip
 OUTSIDE = ['codecs\' own round trip (zlib/bz2/lzma are C)', 'paths with more than one free '
            'code point (the escaper is a per-character substitution; neighbours are covered '
            'by the listed contexts)', 'lone surrogates through the UTF-8 file layer']
-STUBS = ['gemato.manifest.int -> model_int (fixed-point conditions only)']
+STUBS = ['gemato.manifest.int -> model_int, gemato.manifest.chr -> model_chr (error contract '
+         'of the builtin spelled out; fixed-point conditions only)']
